@@ -25,6 +25,8 @@ CONSTANTS ROT,          \* keyRotationInterval (1000)
           LEN,          \* lengthHeaderSize    (2)
           MAC,          \* macSize             (16)
           MaxSize,      \* largest payload     (65535)
+          ActLen,       \* length of acts one and two (50)
+          Act3Len,      \* length of act three (66)
           ReaderStops,  \* caller contract: a reader never calls ReadMessage again after an error
           TrackUsed     \* keep the explicit set of (key, ep, n) used for encryption (MC only)
 
@@ -134,7 +136,8 @@ hvars == <<hs, target, tr, act, tampered>>
 tvars == <<snd, rcv, pend, pipe, closed, lastmsg, nsent, dl, rfail, fl, used, hw, reuse>>
 vars  == <<hvars, tvars, nadv, last>>
 
-NoAct  == [k |-> 0, good |-> TRUE, sess |-> "s", alt |-> "none"]
+NoAct  == [k |-> 0, good |-> TRUE, sess |-> "s", alt |-> "none", cuts |-> <<>>]
+ActSize(k) == IF k = 3 THEN Act3Len ELSE ActLen
 NoPend == [hc |-> NoCt, bc |-> NoCt, hl |-> 0, bl |-> 0]
 Obs(op, who, err) == [op |-> op, who |-> who, err |-> err, nn |-> 0, did |-> 0, dh |-> "", dsz |-> 0,
                       intact |-> FALSE, prefail |-> FALSE]
@@ -171,7 +174,7 @@ GenActOne(t) ==
   /\ hs["A"] = "init" /\ act = NoAct
   /\ target' = t
   /\ hs' = [hs EXCEPT !["A"] = "act1"]
-  /\ act' = [k |-> 1, good |-> (t = "real"), sess |-> "s", alt |-> "none"]
+  /\ act' = [k |-> 1, good |-> (t = "real"), sess |-> "s", alt |-> "none", cuts |-> <<>>]
   /\ last' = Obs("GenActOne", "A", "")
   /\ UNCHANGED <<tr, tampered, snd, rcv>> /\ HsOnly
 
@@ -187,7 +190,7 @@ RecvActOne ==
 GenActTwo ==
   /\ hs["B"] = "act1" /\ act = NoAct
   /\ hs' = [hs EXCEPT !["B"] = "act2"]
-  /\ act' = [k |-> 2, good |-> TRUE, sess |-> tr["B"], alt |-> "none"]
+  /\ act' = [k |-> 2, good |-> TRUE, sess |-> tr["B"], alt |-> "none", cuts |-> <<>>]
   /\ last' = Obs("GenActTwo", "B", "")
   /\ UNCHANGED <<target, tr, tampered, snd, rcv>> /\ HsOnly
 
@@ -202,7 +205,7 @@ RecvActTwo ==
 GenActThree ==
   /\ hs["A"] = "act2" /\ act = NoAct
   /\ hs' = [hs EXCEPT !["A"] = "done"]
-  /\ act' = [k |-> 3, good |-> TRUE, sess |-> tr["A"], alt |-> "none"]
+  /\ act' = [k |-> 3, good |-> TRUE, sess |-> tr["A"], alt |-> "none", cuts |-> <<>>]
   /\ Split("A")
   /\ last' = Obs("GenActThree", "A", "")
   /\ UNCHANGED <<target, tr, tampered>> /\ HsOnly
@@ -227,11 +230,24 @@ AlterAct(kind) ==
   /\ last' = Obs("AlterAct", "", "")
   /\ UNCHANGED <<hs, target, tr, tvars>>
 
+\* the network delivers the act in flight in Len(cuts) fragments of the given lengths.  The receiver
+\* (Listener.doHandshake / Dial) reads a whole act whatever the fragmentation: RecvAct* below do not
+\* look at `cuts` - whether a handshake completes must not depend on it
+RECURSIVE SumSeq(_)
+SumSeq(q) == IF q = <<>> THEN 0 ELSE Head(q) + SumSeq(Tail(q))
+FragmentAct(cuts) ==
+  /\ act.k # 0 /\ act.cuts = <<>> /\ Len(cuts) >= 2
+  /\ \A i \in 1..Len(cuts) : cuts[i] >= 1
+  /\ SumSeq(cuts) = ActSize(act.k)
+  /\ act' = [act EXCEPT !.cuts = cuts]
+  /\ last' = Obs("FragmentAct", "", "")
+  /\ UNCHANGED <<hs, target, tr, tampered, tvars, nadv>>
+
 \* replay of an act one recorded in ANOTHER session with the same responder:
 \* the responder cannot tell (inherent in Noise_XK), the initiator then rejects act two
 OldActOne ==
   /\ act.k = 1 /\ act.alt = "none" /\ act.sess = "s"
-  /\ act' = [k |-> 1, good |-> TRUE, sess |-> "x", alt |-> "none"]
+  /\ act' = [k |-> 1, good |-> TRUE, sess |-> "x", alt |-> "none", cuts |-> act.cuts]
   /\ tampered' = TRUE /\ nadv' = nadv + 1
   /\ last' = Obs("OldActOne", "", "")
   /\ UNCHANGED <<hs, target, tr, tvars>>
